@@ -386,3 +386,33 @@ impl VLoadBalancer {
     self.0.wait_for_connection().await
   }
 }
+
+// --- anonymous ingress engine (PULL/SUB receive path) ---------------------------------------------
+
+pub struct VAnonymousIngress(crate::socket::patterns::anonymous_ingress::AnonymousIngressEngine);
+pub struct VPipeSender(crate::socket::patterns::ready_pipe_queue::PipeMessageSender);
+
+impl VPipeSender {
+  /// Non-blocking enqueue of one logical message; false when the pipe is full or gone.
+  pub fn try_send(&self, batch: FrameBatch) -> bool {
+    self.0.try_send_sync(batch).is_ok()
+  }
+}
+
+impl VAnonymousIngress {
+  pub fn new(activation_capacity: usize) -> Self {
+    Self(crate::socket::patterns::anonymous_ingress::AnonymousIngressEngine::new(activation_capacity))
+  }
+  pub fn register_pipe(&self, pipe_id: usize, capacity: usize) -> VPipeSender {
+    VPipeSender(self.0.register_pipe(pipe_id, capacity, 1))
+  }
+  pub fn deregister_pipe(&self, pipe_id: usize) {
+    self.0.deregister_pipe(pipe_id)
+  }
+  pub async fn recv(&self, rcvtimeo: Option<Duration>) -> Result<Msg, ZmqError> {
+    self.0.recv(rcvtimeo).await
+  }
+  pub async fn recv_multipart(&self, rcvtimeo: Option<Duration>) -> Result<FrameBatch, ZmqError> {
+    self.0.recv_multipart(rcvtimeo).await
+  }
+}
